@@ -63,11 +63,11 @@ template <> z_interval_t z_interval_t::operator/(const z_interval_t &x) const {
       z_interval_t u(z_bound_t(1), _ub);
       return ((l / x) | (u / x) | z_interval_t(z_number(0)));
     } else {
-      // Neither the dividend nor the divisor contains 0
-      z_interval_t a =
-          (_ub < 0) ? (*this + ((x._ub < 0) ? (x + z_interval_t(z_number(1)))
-                                            : (z_interval_t(z_number(1)) - x)))
-                    : *this;
+      // Neither the dividend nor the divisor contains 0. The
+      // division of z_number truncates towards zero: within a sign
+      // quadrant it is monotone in both arguments so the result is
+      // given by the corners.
+      const z_interval_t &a = *this;
       bound_t ll = a._lb / x._lb;
       bound_t lu = a._lb / x._ub;
       bound_t ul = a._ub / x._lb;
